@@ -87,7 +87,12 @@ def tasks(tier):
         for f in ("list1", "list2", "list3") + (("listN",) if tier == "thorough" else ()):
             out.append(Scanner("mp_read_bfile_index_field", nd, f))
     from props.C15_api import api_tasks
-    return out + api_tasks(tier)
+    # the selector establishes the scanners' precondition on the field selection (non-negative, increasing indices)
+    from props.C01_api import SelectorInit
+    sel = [SelectorInit(nf, form) for nf in (1, 3) for form in ("int", "slice", "list1", "list2", "list3", "names")]
+    for t in sel:
+        t.prop = "C15"
+    return out + api_tasks(tier) + sel
 
 
 def canaries(tier):
